@@ -575,6 +575,21 @@ impl Domain for RpcDomain {
                     .unwrap_or(false);
                 format!("roundtrip len={} trailer_ok=true same={} {}", frame.len(), same, mutate_frame::<Status>(&frame))
             },
+            // status-bytes <code> <hexmsg>: the frame the server sends for a handler error (`create_bad_request`), byte for byte;
+            // the Lean model (Model/Status.lean) has the archive layout of `Status` and must produce the same bytes.
+            // Also what the client side makes of that frame (`DataView::<Status>::using` + deserialize).
+            "status-bytes" => {
+                let v = Status { code: code_of(p_u64(t[1]) as u8), message: String::from_utf8(unhex(t[2])).expect("utf8") };
+                let frame = datacake_rpc::to_view_bytes(&v).expect("serialize");
+                let back = match DataView::<Status>::using(frame.clone()) {
+                    Ok(view) => match view.deserialize_view() {
+                        Ok(d) => format!("{}:{}", code_num(&d.code), crate::hex(d.message.as_bytes())),
+                        Err(_) => "undecodable".to_string(),
+                    },
+                    Err(_) => "invalid".to_string(),
+                };
+                format!("frame {} back {}", crate::hex(&frame), back)
+            },
             // ---- C12 end to end over loopback
             "echo" => {
                 let v = make_payload(p_u64(t[1]), p_u64(t[2]) as usize);
